@@ -75,3 +75,18 @@ void bad_out_rbw__own(ep2_t r, const ep2_t p) {
 	fp2_copy(r->z, p->z);
 	r->coord = p->coord;
 }
+
+/* the result is stored over the second operand before that operand's x is read */
+void bad_alias_rw__second(ep2_t r, const ep2_t p, const ep2_t q) {
+	fp2_add(r->x, p->x, p->z);
+	fp2_add(r->y, q->x, q->z);
+	fp2_mul(r->z, r->x, r->y);
+	r->coord = p->coord;
+}
+
+void ok_alias_order(ep2_t r, const ep2_t p, const ep2_t q) {
+	fp2_add(r->y, q->x, q->z);
+	fp2_add(r->x, p->x, p->z);
+	fp2_mul(r->z, r->x, r->y);
+	r->coord = PROJC;
+}
